@@ -549,7 +549,8 @@ class FunctionType(ParametrizedTypeBase):
             # However, we have to down-shift the de Bruijn index.
             if arg is None:
                 param = param.with_idx(len(remaining_params))
-                remaining_params.append(param.instantiate_bounds(full_inst))
+                param = param.instantiate_bounds(full_inst)
+                remaining_params.append(param)
                 arg = param.to_bound()
 
             # Set the `preserve` flag for instantiated tuples and None
